@@ -6,5 +6,5 @@ import "github.com/launchdarkly/go-server-sdk-evaluation/v3/ldmodel"
 
 // Without the easyjson build tag the easyjson hooks do not exist; these checks are no-ops.
 func ejEncodeAgrees(f *ldmodel.FeatureFlag, s *ldmodel.Segment, reference []byte) string { return "" }
-func ejDecodeAgrees(data []byte, isFlag bool, referenceDump string) string              { return "" }
-func ejOnly() bool                                                                        { return false }
+func ejDecodeAgrees(data []byte, isFlag bool, referenceDump string) string               { return "" }
+func ejOnly() bool                                                                       { return false }
